@@ -160,7 +160,7 @@ def main() -> None:
         "setup_cmd": "./setup.sh",
         "hooks": {
             "guard": "LSST_DAF_RELATION_VERIF",
-            "enable": "no source hooks in /repo and no monkey-patching: every observation uses the public API or public extension points (RowIterable / Engine / Processor subclasses, a pytest plugin under /verif for the repository's own tests); ./check exports LSST_DAF_RELATION_VERIF=1 only for uniformity",
+            "enable": "no source hooks in /repo and no monkey-patching: every observation uses the public API or public extension points (RowIterable / Engine / Processor subclasses, user-defined RowFilter / Reordering operations evaluated through apply_custom_unary_operation, a pytest plugin under /verif for the repository's own tests); ./check exports LSST_DAF_RELATION_VERIF=1 only for uniformity",
             "baseline_off_cmd": "cd /repo && env -u LSST_DAF_RELATION_VERIF /venv/bin/python -m pytest -ra -q -p no:cacheprovider --timeout=900 --continue-on-collection-errors",
             "source_commits": [],
             "add_only": True,
